@@ -29,11 +29,12 @@ for c in $(git log --format=%h --grep='^fix:'); do
       *"logged with a copy of the entry"*) n=revert_log_live_entry;;
       *"ttl in context is read and updated atomically"*) n=revert_ctx_ttl_atomic;;
       *"checks the list of callbacks under its lock"*) n=revert_invalidator_check_unlocked;;
+      *"expired entry without details"*) n=revert_plain_expired;;
       *) n=revert_$c;;
     esac
   fi
   git reset -q --hard HEAD
   # reverts that apply textually but no longer compile against later fixes are kept as rebased by hand
-  case "$n" in revert_empty_callbacks|revert_zero_jittered_ttl|revert_bfdfc60|revert_traitof_counter|revert_restore_expirations|revert_never_expiring_cleanup|revert_atomic_expiration|revert_syncmap_restore) echo "$n kept (rebased by hand)"; continue;; esac
+  case "$n" in revert_prepareread_order|revert_empty_callbacks|revert_zero_jittered_ttl|revert_bfdfc60|revert_traitof_counter|revert_restore_expirations|revert_never_expiring_cleanup|revert_atomic_expiration|revert_syncmap_restore) echo "$n kept (rebased by hand)"; continue;; esac
   if git revert -n $c >/dev/null 2>&1; then git diff HEAD > /verif/mutants/$n.diff; echo "$n ok"; else git revert --abort 2>/dev/null; echo "$n CONFLICT (rebase by hand)"; fi
 done
